@@ -41,7 +41,8 @@ func tagSSIParser(doc *Parser, start *Token, arguments *Parser) (INodeTag, *Erro
 			SSINode.template = temporaryTpl
 		} else {
 			// plaintext, read through the set's loaders like every other template source
-			_, _, fd, err := doc.template.set.resolveTemplate(doc.template, fileToken.Val)
+			// (the name is resolved the way include, extends and import resolve theirs)
+			_, _, fd, err := doc.template.set.resolveTemplate(nil, doc.template.set.resolveFilename(doc.template, fileToken.Val))
 			if err != nil {
 				return nil, (&Error{
 					Filename:  doc.template.name,
